@@ -128,6 +128,17 @@ impl<TX: Clone> Recv<TX> {
         }
 
         let final_size = stream_frame.offset() + stream_frame.len() as u64;
+        if final_size > self.max_stream_data {
+            return Err(QuicError::new(
+                ErrorKind::FlowControl,
+                stream_frame.frame_type().into(),
+                format!(
+                    "{} send {final_size} bytes which exceeds the stream data limit {}",
+                    stream_frame.stream_id(),
+                    self.max_stream_data
+                ),
+            ));
+        }
         let received_largest_offset = self.rcvbuf.largest_offset();
         if received_largest_offset > final_size {
             return Err(QuicError::new(
@@ -224,6 +235,17 @@ impl<TX> Recv<TX> {
         reset_frame: &ResetStreamFrame,
     ) -> Result<usize, QuicError> {
         let final_size = reset_frame.final_size();
+        if final_size > self.max_stream_data {
+            return Err(QuicError::new(
+                ErrorKind::FlowControl,
+                reset_frame.frame_type().into(),
+                format!(
+                    "{} reset with final size {final_size} which exceeds the stream data limit {}",
+                    reset_frame.stream_id(),
+                    self.max_stream_data
+                ),
+            ));
+        }
         if final_size < self.largest {
             return Err(QuicError::new(
                 ErrorKind::FinalSize,
